@@ -308,6 +308,10 @@ def rule_argon(ctx, R, F):
         for x in walk(f['body']):
             if x['k'] == 'Assign':
                 asg.setdefault(show(x['l']), []).append(showv(x['r']))
+            elif x['k'] == 'Decl':
+                for d_ in x['d']:
+                    if 'init' in d_ and d_.get('name'):
+                        asg.setdefault(d_['name'], []).append(showv(d_['init']))      # `T x = e;` is the assignment x = e
     S = ctx.spec()
     t = S.table('7.1.1', ['parameter', 'value'])
     cfg = {n: macro_int(F, n) for n in ('RANDOMX_ARGON_LANES', 'RANDOMX_ARGON_MEMORY', 'RANDOMX_ARGON_ITERATIONS')}
